@@ -146,6 +146,12 @@ func (s *vbSUT) Start(initObs json.RawMessage) error {
 		}
 		s.rng.Shuffle(len(ins), func(a, b int) { ins[a], ins[b] = ins[b], ins[a] })
 		for _, in := range ins {
+			// segwit spends: the witness hash of a transaction then differs
+			// from its id (the id is what confirmations, inputs of children
+			// and the peers' messages name)
+			sig := make([]byte, 71)
+			s.rng.Read(sig)
+			in.Witness = wire.TxWitness{sig, make([]byte, 33)}
 			tx.AddTxIn(in)
 		}
 		// a P2WPKH script (the rescan slice watches it as an address)
